@@ -13,7 +13,7 @@ import sessions
 import vlib
 from checks import c02
 
-INVS = ["AckSound", "RetxSame", "SeqDense", "TxContiguous"]
+INVS = ["AckSound", "RetxSame", "SeqDense", "TxContiguous", "CloseSeqUnique"]
 
 
 def named_schedules(seed):
@@ -24,6 +24,15 @@ def named_schedules(seed):
         sc = dict(sc)
         sc["notx"] = 0
         out.append(sc)
+    # both ends close at the same moment while the client's socket is busy: its output loop sits in WriteTo (holding the output lock)
+    # when the application's Close and the peer's close request both want a sequence number
+    F = lambda ep, kind, seq, tx, fate, **kw: dict({"ep": ep, "kind": kind, "s": -1, "seq": seq, "tx": tx, "fate": fate}, **kw)
+    for ms in (300, 900):
+        for kind in ("ack", "data"):
+            out.append({"id": "named/simultaneous-close-while-the-socket-is-busy-%s-%d" % (kind, ms), "transport": "udp", "mtu": 1400, "seed": seed,
+                        "limit": 900, "notx": 0, "realtime": True,   # a mutex waiter behind a sleeping holder stops a virtual clock
+                        "sessions": [{"c": [["w", 1000], ["rn", 500], ["w", 700], ["close"]], "s": [["rn", 1000], ["w", 500], ["sleep", 100], ["close"]]}],
+                        "faults": [F("C", kind, -1, 0, "stall", ms=ms, n=1)]})
     # buffers reused by the application after Write returns (io.Copy style): harness always passes
     # fresh keystream slices, so content changes show up as digest changes of a retransmitted seq
     return out
